@@ -240,5 +240,18 @@ def _build():
     return out
 
 
-FINDINGS = _build()
+FINDINGS = _build() + [
+    dict(id="C14-json-schema-unknown-keywords-copied-into-entry", property="C14",
+         pattern=dict(check="wellformed", parser="json_schema", clause="entry_keys", entry="param", source="handwritten",
+                      key={"in": ["enum", "format", "items", "maxLength", "minimum", "examples", "title"]}),
+         what="the JSON-schema parser renames description/type and converts pattern/anyOf/$ref, and leaves every other keyword of the property (enum, format, items, bounds, title, examples) "
+              "in the parameter entry as an extra key",
+         site="cdd/json_schema/utils/parse_utils.py:json_schema_property_to_param (mutates and returns the property dict itself)",
+         example="{'properties': {'alpha': {'description': 'the value', 'type': 'string', 'format': 'date-time'}}} -> params['alpha'] == {'doc': 'the value', 'typ': 'str', 'format': 'date-time'}"),
+    dict(id="C14-json-schema-empty-pattern-left-in-entry", property="C14",
+         pattern=dict(check="wellformed", parser="json_schema", clause="entry_keys", entry="param", source="handwritten", key="pattern", js_pattern="empty"),
+         what="same pass-through for an empty 'pattern' string (a non-empty pattern is always converted into a Literal type and removed)",
+         site="cdd/json_schema/utils/parse_utils.py:json_schema_property_to_param (`if _param.get('pattern')`)",
+         example="{'properties': {'alpha': {'type': 'string', 'pattern': ''}}} -> params['alpha'] == {'typ': 'str', 'pattern': ''}"),
+]
 FIXED = []
